@@ -152,7 +152,9 @@ impl<'a> GGen<'a> {
             5 => Expr::Insens(self.rng.pick(&["A", "aB", "b"]).to_string()),
             6 => { let (a, b) = *self.rng.pick(&[("a", "b"), ("a", "c"), ("b", "é")]); Expr::Range(a.into(), b.into()) }
             7 => Expr::Ident("ANY".into()),
-            8 => Expr::Ident(self.rng.pick(&["ASCII_DIGIT", "ASCII_ALPHA", "ASCII_ALPHANUMERIC", "ASCII_HEX_DIGIT", "NEWLINE", "ASCII_ALPHA_LOWER"]).to_string()),
+            8 => { let n = self.rng.pick(&["ASCII_DIGIT", "ASCII_ALPHA", "ASCII_ALPHANUMERIC", "ASCII_HEX_DIGIT", "NEWLINE", "ASCII_ALPHA_LOWER"]).to_string();
+                // a grammar rule of that name shadows the built-in: the reference would then be an (unguarded) rule reference
+                if self.names.contains(&n) { Expr::Str(self.lit()) } else { Expr::Ident(n) } }
             _ => Expr::Str(self.lit()),
         }
     }
@@ -180,7 +182,7 @@ impl<'a> GGen<'a> {
     /// rule references that are leftmost are restricted to later, *progressing* rules when guarded
     pub fn any(&mut self, d: usize, leftmost: bool) -> Expr {
         if d == 0 { return if self.rng.chance(1, 5) { Expr::Str(String::new()) } else { self.consuming() }; }
-        match self.rng.below(25) {
+        match self.rng.below(27) {
             0 | 1 => self.consuming(),
             24 => { let x = self.consuming(); let y = self.progressing(d - 1, false); Expr::Seq(bx(Expr::Rep(bx(Expr::Seq(bx(x.clone()), bx(y))))), bx(x)) }
             2..=4 => { let a = self.any(d - 1, leftmost); let b = self.any(d - 1, leftmost); Expr::Seq(bx(a), bx(b)) }
@@ -207,8 +209,30 @@ impl<'a> GGen<'a> {
             21 if self.cfg.extras && self.cfg.tags && !self.has_atomic => match self.rule_ref(leftmost) { Some(e) => Expr::NodeTag(bx(e), self.rng.pick(&["t", "u"]).to_string()), None => self.consuming() },
             22 => { let n = self.rng.range(1, 3); let mut alts: Vec<Expr> = (0..n).map(|_| Expr::Str(self.lit())).collect(); let mut e = alts.pop().unwrap(); while let Some(x) = alts.pop() { e = Expr::Choice(bx(x), bx(e)); }
                 Expr::Rep(bx(Expr::Seq(bx(Expr::NegPred(bx(e))), bx(Expr::Ident("ANY".into()))))) }
+            23 if self.cfg.stack_ops => self.stack_stress(d.min(3)),
             _ => self.consuming(),
         }
+    }
+    /// pushes, then a group of nested optional / predicate / sequence constructs that push, drop and pop, then
+    /// something that may fail, with an alternative that reads the stack: exercises the restore paths
+    fn stack_group(&mut self, d: usize) -> Expr {
+        let t = |g: &mut Self| match g.rng.below(8) { 0..=2 => Expr::Push(bx(Expr::Str(g.lit()))), 3 | 4 => Expr::Ident("DROP".into()), 5 => Expr::Ident("POP".into()), 6 => Expr::Ident("PEEK".into()), _ => Expr::Str(g.lit()) };
+        if d == 0 { return t(self); }
+        match self.rng.below(8) {
+            0 | 1 => { let a = self.stack_group(d - 1); let b = self.stack_group(d - 1); Expr::Seq(bx(a), bx(b)) }
+            2 | 3 => { let a = self.stack_group(d - 1); Expr::Opt(bx(a)) }
+            4 => { let a = self.stack_group(d - 1); Expr::PosPred(bx(a)) }
+            5 => { let a = self.stack_group(d - 1); Expr::NegPred(bx(a)) }
+            _ => t(self),
+        }
+    }
+    fn stack_stress(&mut self, d: usize) -> Expr {
+        let n = self.rng.range(1, 2);
+        let mut e = { let g = self.stack_group(d); let tail = if self.rng.chance(1, 2) { Expr::Str(self.lit()) } else { Expr::Ident(self.rng.pick(&["PEEK", "POP", "PEEK_ALL"]).to_string()) };
+            let reader = Expr::Seq(bx(if self.rng.chance(1, 2) { Expr::Str(self.lit()) } else { Expr::Opt(bx(Expr::Str(self.lit()))) }), bx(Expr::Ident(self.rng.pick(&["PEEK", "POP", "PEEK_ALL", "POP_ALL"]).to_string())));
+            Expr::Choice(bx(Expr::Seq(bx(g), bx(tail))), bx(reader)) };
+        for _ in 0..n { e = Expr::Seq(bx(Expr::Push(bx(Expr::Str(self.lit())))), bx(e)); }
+        e
     }
 }
 
@@ -231,7 +255,26 @@ pub fn gen_grammar(rng: &mut Rng, cfg: &GenCfg) -> Vec<Rule> {
         rules.push(Rule { name: names[i].clone(), ty: rule_tys[i], expr });
     }
     let wtys = [RuleType::Silent, RuleType::Silent, RuleType::Normal, RuleType::Atomic, RuleType::CompoundAtomic, RuleType::NonAtomic];
-    if ws { rules.push(Rule { name: "WHITESPACE".into(), ty: *rng.pick(&wtys), expr: if rng.chance(1, 3) { Expr::Choice(bx(Expr::Str(" ".into())), bx(Expr::Str("_".into()))) } else { Expr::Str(" ".into()) } }); }
+    // idiom: an atomic "text up to one of k terminators" rule (the optimizer turns it into a skip-until search),
+    // with terminators that may share a first byte, used by rule 0
+    if rng.chance(1, 4) {
+        let k = rng.range(1, 4);
+        let pool = ["a", "b", "c", "ab", "ac", "ba", "é", "bc"];
+        let mut alts: Vec<Expr> = (0..k).map(|_| Expr::Str(rng.pick(&pool[..]).to_string())).collect();
+        let mut e = alts.pop().unwrap(); while let Some(x) = alts.pop() { e = Expr::Choice(bx(x), bx(e)); }
+        let body = Expr::Rep(bx(Expr::Seq(bx(Expr::NegPred(bx(e.clone()))), bx(Expr::Ident("ANY".into())))));
+        rules.push(Rule { name: "txt".into(), ty: *rng.pick(&[RuleType::Atomic, RuleType::Atomic, RuleType::CompoundAtomic]), expr: body });
+        let r0 = rules[0].expr.clone();
+        rules[0].expr = match rng.below(3) { 0 => Expr::Seq(bx(Expr::Ident("txt".into())), bx(Expr::Opt(bx(r0)))), 1 => Expr::Seq(bx(Expr::Ident("txt".into())), bx(Expr::Seq(bx(e), bx(Expr::Ident("txt".into()))))), _ => Expr::Choice(bx(Expr::Seq(bx(Expr::Str("c".into())), bx(r0))), bx(Expr::Ident("txt".into()))) };
+    }
+    // WHITESPACE / COMMENT whose body goes through a (non-silent) helper rule: pairs and attempts inside them
+    let inner = ws && rng.chance(1, 4);
+    if inner {
+        let ty = *rng.pick(&[RuleType::Normal, RuleType::Normal, RuleType::Silent, RuleType::Atomic]);
+        rules.push(Rule { name: "wsi".into(), ty, expr: Expr::Choice(bx(Expr::Str(" ".into())), bx(Expr::Str("_".into()))) });
+        rules.push(Rule { name: "WHITESPACE".into(), ty: *rng.pick(&wtys), expr: if rng.chance(1, 2) { Expr::Ident("wsi".into()) } else { Expr::Seq(bx(Expr::Ident("wsi".into())), bx(Expr::Opt(bx(Expr::Str("_".into()))))) } });
+    }
+    if ws && !inner { rules.push(Rule { name: "WHITESPACE".into(), ty: *rng.pick(&wtys), expr: if rng.chance(1, 3) { Expr::Choice(bx(Expr::Str(" ".into())), bx(Expr::Str("_".into()))) } else { Expr::Str(" ".into()) } }); }
     if cm { rules.push(Rule { name: "COMMENT".into(), ty: *rng.pick(&wtys), expr: if rng.chance(1, 2) { Expr::Str("#".into()) } else { Expr::Seq(bx(Expr::Str("#".into())), bx(Expr::Str("#".into()))) } }); }
     rules
 }
